@@ -17,7 +17,8 @@ TRUTHY = [5, 'x', True, 2.5]
 
 
 def gen_case(rng):
-    n = rng.choice([2, 2, 3])
+    leaf = rng.random() < 0.35           # the ports are wired to the variable itself (a one-level ports schema)
+    n = rng.choice([1, 1, 2]) if leaf else rng.choice([2, 2, 3])
     how = rng.choice(['set', 'record', 'accumulate'])
     def val():
         if how == 'accumulate':
@@ -27,7 +28,7 @@ def gen_case(rng):
         if how == 'set' and rng.random() < 0.6:
             return [val()] * n                       # the same value through every port
         return [val() for _ in range(n)]
-    return {'kind': 'falsymulti', 'n': n, 'how': how, 'depth': rng.choice([0, 1]),
+    return {'kind': 'falsymulti', 'n': n, 'how': how, 'depth': 0 if leaf else rng.choice([0, 1]), 'leaf': leaf,
             'ticks': [tick() for _ in range(rng.choice([2, 3]))],
             'other': rng.random() < 0.5}
 
@@ -38,6 +39,11 @@ def corpus():
          'other': False},
         {'kind': 'falsymulti', 'n': 3, 'how': 'record', 'depth': 1, 'ticks': [[0, 5, False], ['', 0, 0]], 'other': True},
         {'kind': 'falsymulti', 'n': 2, 'how': 'accumulate', 'depth': 0, 'ticks': [[0, 3], [4, 0]], 'other': False},
+        # a port wired to the variable itself: the update for the port is the value
+        {'kind': 'falsymulti', 'n': 1, 'how': 'set', 'depth': 0, 'leaf': True, 'ticks': [[5], [0], [False], ['']],
+         'other': True},
+        {'kind': 'falsymulti', 'n': 2, 'how': 'record', 'depth': 0, 'leaf': True, 'ticks': [[0, 5], ['', 0]],
+         'other': False},
     ]
 
 
@@ -98,6 +104,8 @@ def run_impl(case):
         name = f'falsymulti-{next(_ids)}'
 
         def ports_schema(self):
+            if case.get('leaf'):
+                return {f'p{i}': dict(decl) for i in range(n)}
             if case['depth']:
                 return {f'p{i}': {'sub': {'v': dict(decl)}} for i in range(n)}
             return {f'p{i}': {'v': dict(decl)} for i in range(n)}
@@ -107,6 +115,8 @@ def run_impl(case):
             if not script:
                 return {}
             vals = script.pop(0)
+            if case.get('leaf'):
+                return {f'p{i}': vals[i] for i in range(n)}
             if case['depth']:
                 return {f'p{i}': {'sub': {'v': vals[i]}} for i in range(n)}
             return {f'p{i}': {'v': vals[i]} for i in range(n)}
@@ -123,7 +133,7 @@ def run_impl(case):
     obs = {}
     try:
         procs = {'many': Many({})}
-        topo = {'many': {f'p{i}': ('store',) for i in range(n)}}
+        topo = {'many': {f'p{i}': ('store', 'v') if case.get('leaf') else ('store',) for i in range(n)}}
         if case['other']:
             procs['other'] = Other({})
             topo['other'] = {'w': ('elsewhere',)}
@@ -138,7 +148,8 @@ def run_impl(case):
         obs['values'] = got
         shown = []
         for s in seen[1:]:
-            row = [s[f'p{i}']['sub']['v'] if case['depth'] else s[f'p{i}']['v'] for i in range(n)]
+            row = [s[f'p{i}'] if case.get('leaf') else (s[f'p{i}']['sub']['v'] if case['depth'] else s[f'p{i}']['v'])
+                   for i in range(n)]
             shown.append([_enc(x) for x in row])
         obs['shown'] = shown
         if case['other']:
